@@ -126,6 +126,36 @@ the START of the last text event (3), before the end of the word it follows -/
 example : mdParseSrc asciiPlus sampleText false sampleEvents =
     .ok [⟨⟨0, 1⟩, .word⟩, ⟨⟨1, 2⟩, .space 1⟩, ⟨⟨3, 4⟩, .word⟩, ⟨⟨3, 3⟩, .paragraphBreak⟩] := by decide
 
+/-- non-vacuity of `mdParse_sorted_covering` / `mdParseSrc_total_inbounds_sorted` (hence of
+`mdParse_total`, `mdParse_inbounds`, `eventsOK_startsOK`): ALL hypotheses at once (`EventsOK` and,
+for the zero-width clause, `solidOK`) on the real list above — four tokens, an inner-parsed text
+with a two-byte character, a zero-width break; the theorem applied, its conclusion concrete -/
+example : ∃ toks, mdParseSrc asciiPlus sampleText false sampleEvents = .ok toks ∧ toks.length = 4 ∧
+      (∀ t ∈ toks, t.span.start ≤ t.span.stop ∧ t.span.stop ≤ sampleText.length) ∧
+      (toks.filter (fun t => decide (t.span.start < t.span.stop))).Pairwise
+        (fun a b => a.span.stop ≤ b.span.start) ∧
+      (∀ t ∈ toks, t.span.start = t.span.stop → t.kind = .paragraphBreak ∨ t.kind.isNewline = true) := by
+  obtain ⟨toks, h, hb, hs, hz⟩ :=
+    mdParseSrc_total_inbounds_sorted asciiPlus sampleText false sampleEvents (by decide)
+  have hl : toks.length = 4 := by
+    have h2 : mdParseSrc asciiPlus sampleText false sampleEvents =
+      .ok [⟨⟨0, 1⟩, .word⟩, ⟨⟨1, 2⟩, .space 1⟩, ⟨⟨3, 4⟩, .word⟩, ⟨⟨3, 3⟩, .paragraphBreak⟩] := by decide
+    rw [h2] at h; cases h; rfl
+  exact ⟨toks, h, hl, hb, hs, hz (by decide)⟩
+
+/-- non-vacuity of `mdParse_sorted_covering`, second witness (HAND-MADE, in the shape pulldown-cmark
+gives a tight list `- a⏎é `c`⏎`): `Start(List)`, a soft break, two inner-parsed texts, a `Code`
+event; `EventsOK` and `solidOK` hold together and the parse has seven tokens, two of them
+zero-width (`Newline(2)` at 0, `ParagraphBreak` at 6 — before the end of the token it follows) -/
+example : ∃ (src : List Char) (events : List MdEvent),
+    EventsOK (utf8Bytes src) false events ∧ solidOK false [] events = true ∧
+    mdParseSrc asciiPlus src false events =
+      .ok [⟨⟨0, 0⟩, .newline 2⟩, ⟨⟨2, 3⟩, .word⟩, ⟨⟨3, 4⟩, .newline 1⟩, ⟨⟨4, 5⟩, .word⟩, ⟨⟨5, 6⟩, .space 1⟩,
+        ⟨⟨6, 7⟩, .unlintable⟩, ⟨⟨6, 6⟩, .paragraphBreak⟩] :=
+  ⟨['-', ' ', 'a', '\n', 'é', ' ', '`', 'c', '`', '\n'],
+   [⟨.start .List, 0, 11⟩, ⟨.start .Item, 0, 11⟩, ⟨.text 1, 2, 3⟩, ⟨.softBreak, 3, 4⟩, ⟨.text 2, 4, 7⟩,
+    ⟨.code 1, 7, 10⟩, ⟨.stop .Item, 0, 11⟩, ⟨.stop .List, 0, 11⟩], by decide, by decide, by decide⟩
+
 /-- `EventsOK` is needed. pulldown-cmark 0.13.0 for `[[a|]]b c d` (a wikilink with a pipe and no
 display text) emits the rest of the paragraph twice; the event list is not monotone … -/
 def emptyAliasEvents : List MdEvent :=
@@ -161,6 +191,12 @@ example : mdParseSrc asciiPlus emptyAliasImageText false emptyAliasImageEvents =
 
 example : StartsOK (utf8Bytes emptyAliasImageText) emptyAliasImageEvents ∧
     ¬ EventsOK (utf8Bytes emptyAliasImageText) false emptyAliasImageEvents := by decide
+
+/-- non-vacuity of `mdParse_total` / `mdParseSrc_total_inbounds` where `EventsOK` FAILS: the theorem
+applied to the real twelve-event list above (`StartsOK` is its only hypothesis) -/
+example : ∃ toks, mdParseSrc asciiPlus emptyAliasImageText false emptyAliasImageEvents = .ok toks ∧
+    ∀ t ∈ toks, t.span.start ≤ t.span.stop ∧ t.span.stop ≤ 15 :=
+  mdParseSrc_total_inbounds asciiPlus emptyAliasImageText false emptyAliasImageEvents (by decide)
 
 /-- REGRESSION ` ```⏎⇥x` (was `c01-md-synthetic-text` / the out-of-bounds part of
 `c02-md-synthetic-text`: `Unlintable 6..9` in 7 characters): the token built from pulldown-cmark's
@@ -230,6 +266,12 @@ theorem removeIndices_arbitrary_eq_increasing {α} (xs : List α) (i : Nat) (q :
   · rw [← ri_arbitrary_spec, ri_increasing_spec xs i q hq hi]
   · intro hb
     exact reachedIdx_of_increasing xs.length i q hq (fun r hr => ⟨hi r hr, hb r hr⟩)
+
+/-- non-vacuity of `removeIndices_arbitrary_eq_increasing`: the queue `[1, 4, 6]` of the unit test of
+vec_ext.rs on eight elements — increasing, inside the vector, reached completely -/
+example : reachedIdx 0 [1, 4, 6] [10, 11, 12, 13, 14, 15, 16, 17].length = [1, 4, 6] :=
+  (removeIndices_arbitrary_eq_increasing [10, 11, 12, 13, 14, 15, 16, 17] 0 [1, 4, 6] (by decide)
+    (by decide)).2 (by decide)
 
 /-- THE WIKILINK CLEAN-UP IS SAFE WITH THE SHIPPED `remove_indices`: for every token list both
 passes (the code has no other panicking operation: `get`, a guarded `pipe_idx - 2`, a guarded
@@ -333,6 +375,263 @@ example : collapseIdentifiers (fun _ => false)
 example : collapseIdentifiers (fun _ => true) ['a', '_', 'b']
     [⟨⟨2, 3⟩, .word⟩, ⟨⟨1, 2⟩, .punct .Underscore⟩, ⟨⟨0, 1⟩, .word⟩] = .error .spanNew := by decide
 
+/-- non-vacuity of `collapseIdentifiers_sublist_spans` and `collapseIdentifiers_preserves_sorted`: all
+hypotheses on the five tokens of `snake_case is`; the theorem applied -/
+example : (∀ t ∈ ([⟨⟨0, 10⟩, .word⟩, ⟨⟨10, 11⟩, .space 1⟩, ⟨⟨11, 13⟩, .word⟩] : List Tok),
+      t.span.start ≤ t.span.stop ∧ t.span.stop ≤ 13) ∧
+    ([⟨⟨0, 10⟩, .word⟩, ⟨⟨10, 11⟩, .space 1⟩, ⟨⟨11, 13⟩, .word⟩] : List Tok).Pairwise
+      (fun x y => x.span.stop ≤ y.span.start) :=
+  collapseIdentifiers_preserves_sorted (fun w => w == ['s', 'n', 'a', 'k', 'e', '_', 'c', 'a', 's', 'e'])
+    ['s', 'n', 'a', 'k', 'e', '_', 'c', 'a', 's', 'e', ' ', 'i', 's'] 13
+    [⟨⟨0, 5⟩, .word⟩, ⟨⟨5, 6⟩, .punct .Underscore⟩, ⟨⟨6, 10⟩, .word⟩, ⟨⟨10, 11⟩, .space 1⟩, ⟨⟨11, 13⟩, .word⟩]
+    _ (by decide) (by decide) (by decide)
+
+/-- non-vacuity of `collapseIdentifiers_preserves_covering`: the Markdown shape — the same tokens with
+a zero-width `ParagraphBreak` at 6 AFTER the tokens that end at 10 (the list is not sorted as a
+whole: `collapseIdentifiers_preserves_sorted` does not apply), all four hypotheses, a merge happens -/
+example : (∀ t ∈ ([⟨⟨0, 10⟩, .word⟩, ⟨⟨6, 6⟩, .paragraphBreak⟩, ⟨⟨11, 13⟩, .word⟩] : List Tok),
+      t.span.start ≤ t.span.stop ∧ t.span.stop ≤ 13) ∧
+    (([⟨⟨0, 10⟩, .word⟩, ⟨⟨6, 6⟩, .paragraphBreak⟩, ⟨⟨11, 13⟩, .word⟩] : List Tok).filter
+      (fun t => decide (t.span.start < t.span.stop))).Pairwise (fun a b => a.span.stop ≤ b.span.start) :=
+  collapseIdentifiers_preserves_covering (fun w => w == ['s', 'n', 'a', 'k', 'e', '_', 'c', 'a', 's', 'e'])
+    ['s', 'n', 'a', 'k', 'e', '_', 'c', 'a', 's', 'e', ' ', 'i', 's'] 13
+    [⟨⟨0, 5⟩, .word⟩, ⟨⟨5, 6⟩, .punct .Underscore⟩, ⟨⟨6, 10⟩, .word⟩, ⟨⟨6, 6⟩, .paragraphBreak⟩, ⟨⟨11, 13⟩, .word⟩]
+    _ (by decide) (by decide) (by decide) (by decide)
+
+example : ¬ ([⟨⟨0, 5⟩, .word⟩, ⟨⟨5, 6⟩, .punct .Underscore⟩, ⟨⟨6, 10⟩, .word⟩, ⟨⟨6, 6⟩, .paragraphBreak⟩,
+    ⟨⟨11, 13⟩, .word⟩] : List Tok).Pairwise (fun x y => x.span.stop ≤ y.span.start) := by decide
+
+/-! ### C01 for the two wrappers: no panic on a well-formed inner token list -/
+
+/-- `Span::get_content` of a well-formed span inside the text returns -/
+theorem getContent_ok_of_inb {α} (s : Span) (src : List α) (h : s.start ≤ s.stop ∧ s.stop ≤ src.length) :
+    ∃ c, s.getContent src = .ok c := by
+  unfold Span.getContent
+  split
+  · omega
+  · split
+    · split
+      · exact ⟨_, rfl⟩
+      · rename_i h1 h2 h3
+        simp at h3
+        omega
+    · exact ⟨_, rfl⟩
+
+/-- the loop of `CollapseIdentifiers::parse` returns for ANY list of matches inside the token vector,
+provided an earlier token never starts after the end of a later one and no token ends past the
+text — an invariant the loop's own writes (`tokens[start] = first.start .. last.end`) maintain -/
+theorem collapseLoop_total (dict : List Char → Bool) (src : List Char) :
+    ∀ (ms : List Span) (toks : List Tok) (rem : List Nat),
+      (∀ m ∈ ms, m.start < m.stop ∧ m.stop ≤ toks.length) →
+      (∀ (i j : Nat) (s e : Tok), i ≤ j → toks[i]? = some s → toks[j]? = some e →
+        s.span.start ≤ e.span.stop) →
+      (∀ t ∈ toks, t.span.stop ≤ src.length) →
+      ∃ r, collapseLoop dict src ms toks rem = .ok r := by
+  intro ms
+  induction ms with
+  | nil => intro toks rem _ _ _; exact ⟨_, rfl⟩
+  | cons m ms ih =>
+    intro toks rem hb hmono hinb
+    obtain ⟨hm1, hm2⟩ := hb m List.mem_cons_self
+    have hb' : ∀ x ∈ ms, x.start < x.stop ∧ x.stop ≤ toks.length :=
+      fun x hx => hb x (List.mem_cons_of_mem _ hx)
+    have h1 : m.start < toks.length := by omega
+    have h2 : m.stop - 1 < toks.length := by omega
+    simp only [collapseLoop]
+    rw [if_neg (by omega), List.getElem?_eq_getElem h1, List.getElem?_eq_getElem h2]
+    simp only
+    have hle : toks[m.start].span.start ≤ toks[m.stop - 1].span.stop :=
+      hmono m.start (m.stop - 1) _ _ (by omega) (List.getElem?_eq_getElem h1) (List.getElem?_eq_getElem h2)
+    have hstop : toks[m.stop - 1].span.stop ≤ src.length := hinb _ (List.getElem_mem h2)
+    have hnew : Span.new toks[m.start].span.start toks[m.stop - 1].span.stop =
+        .ok ⟨toks[m.start].span.start, toks[m.stop - 1].span.stop⟩ := by
+      unfold Span.new; rw [if_neg (by omega)]
+    obtain ⟨content, hc⟩ := getContent_ok_of_inb
+      (⟨toks[m.start].span.start, toks[m.stop - 1].span.stop⟩ : Span) src ⟨hle, hstop⟩
+    simp only [hnew, hc, bind, Except.bind]
+    split
+    · apply ih
+      · simpa using hb'
+      · intro i j s e hij hs he
+        rw [List.getElem?_set] at hs he
+        simp only [h1, if_true] at hs he
+        by_cases hi : m.start = i
+        · rw [if_pos hi] at hs; cases hs
+          by_cases hj : m.start = j
+          · rw [if_pos hj] at he; cases he; exact hle
+          · rw [if_neg hj] at he
+            exact hmono m.start j toks[m.start] e (by omega) (List.getElem?_eq_getElem h1) he
+        · rw [if_neg hi] at hs
+          by_cases hj : m.start = j
+          · rw [if_pos hj] at he; cases he
+            exact hmono i (m.stop - 1) s toks[m.stop - 1] (by omega) hs (List.getElem?_eq_getElem h2)
+          · rw [if_neg hj] at he
+            exact hmono i j s e hij hs he
+      · intro t ht
+        rcases List.mem_or_eq_of_mem_set ht with h | rfl
+        · exact hinb t h
+        · exact hstop
+    · exact ih toks rem hb' hmono hinb
+
+/-- NO PANIC (C01, `CollapseIdentifiers`): on an inner token list that is in bounds, ordered and
+disjoint (plain English, HTML, comments — the premise `collapseIdentifiers_sublist_spans` takes as
+`… = .ok out` is discharged), for every dictionary and every text -/
+theorem collapseIdentifiers_total (dict : List Char → Bool) (src : List Char) (toks : List Tok)
+    (hwf : ∀ t ∈ toks, t.span.start ≤ t.span.stop ∧ t.span.stop ≤ src.length)
+    (hs : toks.Pairwise (fun x y => x.span.stop ≤ y.span.start)) :
+    ∃ out, collapseIdentifiers dict src toks = .ok out := by
+  obtain ⟨ms, hf, hg, _⟩ := findAllMatches_good src toks
+  have hbounds : ∀ {off : Nat} {l : List Span}, GoodMs off l toks.length →
+      ∀ m ∈ l, m.start < m.stop ∧ m.stop ≤ toks.length := by
+    intro off l
+    induction l generalizing off with
+    | nil => intro _ m hm; cases hm
+    | cons a l ih =>
+      intro h m hm
+      obtain ⟨_, g2, g3, g4⟩ := h
+      rcases List.mem_cons.mp hm with rfl | hm
+      · exact ⟨g2, g3⟩
+      · exact ih g4 m hm
+  obtain ⟨r, hr⟩ := collapseLoop_total dict src ms toks [] (hbounds hg) (by
+    intro i j s e hij hsi hej
+    have hsm := List.mem_of_getElem? hsi
+    have hem := List.mem_of_getElem? hej
+    rcases Nat.lt_or_eq_of_le hij with hlt | rfl
+    · have := List.pairwise_iff_getElem.mp hs i j (List.getElem?_eq_some_iff.mp hsi).1
+        (List.getElem?_eq_some_iff.mp hej).1 hlt
+      rw [(List.getElem?_eq_some_iff.mp hsi).2, (List.getElem?_eq_some_iff.mp hej).2] at this
+      have := (hwf s hsm).1; have := (hwf e hem).1
+      omega
+    · rw [hsi] at hej; cases hej
+      exact (hwf s hsm).1) (fun t ht => (hwf t ht).2)
+  obtain ⟨ts, rem⟩ := r
+  exact ⟨removeIndices 0 (sortUniq rem) ts,
+    by simp only [collapseIdentifiers, hf, hr, bind, Except.bind, pure, Except.pure]⟩
+
+/-- non-vacuity of `collapseIdentifiers_total` (and of `collapseLoop_total`, through it): the five
+tokens of `snake_case is` -/
+example : ∃ out, collapseIdentifiers (fun w => w == ['s', 'n', 'a', 'k', 'e', '_', 'c', 'a', 's', 'e'])
+    ['s', 'n', 'a', 'k', 'e', '_', 'c', 'a', 's', 'e', ' ', 'i', 's']
+    [⟨⟨0, 5⟩, .word⟩, ⟨⟨5, 6⟩, .punct .Underscore⟩, ⟨⟨6, 10⟩, .word⟩, ⟨⟨10, 11⟩, .space 1⟩, ⟨⟨11, 13⟩, .word⟩] =
+      .ok out :=
+  collapseIdentifiers_total _ _ _ (by decide) (by decide)
+
+/-- the same loop for the MARKDOWN shape (zero-width breaks anywhere, also at earlier offsets): only
+the WORD tokens need to be ordered and inside the text, because every match starts and ends at a
+word (`EndsWord`) and the loop's writes are words again -/
+theorem collapseLoop_total_words (dict : List Char → Bool) (src : List Char) :
+    ∀ (ms : List Span) (toks : List Tok) (rem : List Nat),
+      (∀ m ∈ ms, m.start < m.stop ∧ m.stop ≤ toks.length ∧ EndsWord toks m) →
+      (∀ (i j : Nat) (s e : Tok), i ≤ j → toks[i]? = some s → toks[j]? = some e →
+        s.kind.isWord = true → e.kind.isWord = true → s.span.start ≤ e.span.stop) →
+      (∀ t ∈ toks, t.kind.isWord = true → t.span.stop ≤ src.length) →
+      ∃ r, collapseLoop dict src ms toks rem = .ok r := by
+  intro ms
+  induction ms with
+  | nil => intro toks rem _ _ _; exact ⟨_, rfl⟩
+  | cons m ms ih =>
+    intro toks rem hb hmono hinb
+    obtain ⟨hm1, hm2, s0, e0, hs0, he0, hws, hwe⟩ := hb m List.mem_cons_self
+    have hb' : ∀ x ∈ ms, x.start < x.stop ∧ x.stop ≤ toks.length ∧ EndsWord toks x :=
+      fun x hx => hb x (List.mem_cons_of_mem _ hx)
+    have h1 : m.start < toks.length := by omega
+    simp only [collapseLoop]
+    rw [if_neg (by omega), hs0, he0]
+    simp only
+    have hle : s0.span.start ≤ e0.span.stop :=
+      hmono m.start (m.stop - 1) _ _ (by omega) hs0 he0 hws hwe
+    have hstop : e0.span.stop ≤ src.length := hinb _ (List.mem_of_getElem? he0) hwe
+    have hnew : Span.new s0.span.start e0.span.stop = .ok ⟨s0.span.start, e0.span.stop⟩ := by
+      unfold Span.new; rw [if_neg (by omega)]
+    obtain ⟨content, hc⟩ := getContent_ok_of_inb
+      (⟨s0.span.start, e0.span.stop⟩ : Span) src ⟨hle, hstop⟩
+    simp only [hnew, hc, bind, Except.bind]
+    split
+    · apply ih
+      · intro x hx
+        obtain ⟨x1, x2, s, e, hs, he, w1, w2⟩ := hb' x hx
+        refine ⟨x1, by simpa using x2, ?_⟩
+        unfold EndsWord
+        rw [List.getElem?_set, List.getElem?_set]
+        simp only [h1, if_true]
+        by_cases hi : m.start = x.start
+        · rw [if_pos hi]
+          by_cases hj : m.start = x.stop - 1
+          · rw [if_pos hj]; exact ⟨_, _, rfl, rfl, rfl, rfl⟩
+          · rw [if_neg hj]; exact ⟨_, e, rfl, he, rfl, w2⟩
+        · rw [if_neg hi]
+          by_cases hj : m.start = x.stop - 1
+          · rw [if_pos hj]; exact ⟨s, _, hs, rfl, w1, rfl⟩
+          · rw [if_neg hj]; exact ⟨s, e, hs, he, w1, w2⟩
+      · intro i j s e hij hs he w1 w2
+        rw [List.getElem?_set] at hs he
+        simp only [h1, if_true] at hs he
+        by_cases hi : m.start = i
+        · rw [if_pos hi] at hs; cases hs
+          by_cases hj : m.start = j
+          · rw [if_pos hj] at he; cases he; exact hle
+          · rw [if_neg hj] at he
+            exact hmono m.start j s0 e (by omega) hs0 he hws w2
+        · rw [if_neg hi] at hs
+          by_cases hj : m.start = j
+          · rw [if_pos hj] at he; cases he
+            exact hmono i (m.stop - 1) s e0 (by omega) hs he0 w1 hwe
+          · rw [if_neg hj] at he
+            exact hmono i j s e hij hs he w1 w2
+      · intro t ht hw
+        rcases List.mem_or_eq_of_mem_set ht with h | rfl
+        · exact hinb t h hw
+        · exact hstop
+    · exact ih toks rem hb' hmono hinb
+
+/-- NO PANIC (C01, `CollapseIdentifiers` over a Markdown-shaped inner token list — what harper-ls
+builds for comments): same hypotheses as `collapseIdentifiers_preserves_covering`, for every
+dictionary and every text -/
+theorem collapseIdentifiers_total_covering (dict : List Char → Bool) (src : List Char) (toks : List Tok)
+    (hw : ∀ t ∈ toks, t.kind.isWord = true → t.span.start < t.span.stop)
+    (hwf : ∀ t ∈ toks, t.span.start ≤ t.span.stop ∧ t.span.stop ≤ src.length)
+    (hs : (toks.filter (fun t => decide (t.span.start < t.span.stop))).Pairwise
+      (fun a b => a.span.stop ≤ b.span.start)) :
+    ∃ out, collapseIdentifiers dict src toks = .ok out := by
+  obtain ⟨ms, hf, hg, hends⟩ := findAllMatches_good src toks
+  have hbounds : ∀ {off : Nat} {l : List Span}, GoodMs off l toks.length →
+      ∀ m ∈ l, m.start < m.stop ∧ m.stop ≤ toks.length := by
+    intro off l
+    induction l generalizing off with
+    | nil => intro _ m hm; cases hm
+    | cons a l ih =>
+      intro h m hm
+      obtain ⟨_, g2, g3, g4⟩ := h
+      rcases List.mem_cons.mp hm with rfl | hm
+      · exact ⟨g2, g3⟩
+      · exact ih g4 m hm
+  rw [List.pairwise_filter] at hs
+  obtain ⟨r, hr⟩ := collapseLoop_total_words dict src ms toks []
+    (fun m hm => ⟨(hbounds hg m hm).1, (hbounds hg m hm).2, hends m hm⟩) (by
+    intro i j s e hij hsi hej w1 w2
+    have hsm := List.mem_of_getElem? hsi
+    have hem := List.mem_of_getElem? hej
+    rcases Nat.lt_or_eq_of_le hij with hlt | rfl
+    · have := List.pairwise_iff_getElem.mp hs i j (List.getElem?_eq_some_iff.mp hsi).1
+        (List.getElem?_eq_some_iff.mp hej).1 hlt
+      rw [(List.getElem?_eq_some_iff.mp hsi).2, (List.getElem?_eq_some_iff.mp hej).2] at this
+      have := this (by simpa using hw s hsm w1) (by simpa using hw e hem w2)
+      have := (hwf s hsm).1; have := (hwf e hem).1
+      omega
+    · rw [hsi] at hej; cases hej
+      exact (hwf s hsm).1) (fun t ht _ => (hwf t ht).2)
+  obtain ⟨ts, rem⟩ := r
+  exact ⟨removeIndices 0 (sortUniq rem) ts,
+    by simp only [collapseIdentifiers, hf, hr, bind, Except.bind, pure, Except.pure]⟩
+
+/-- non-vacuity of `collapseIdentifiers_total_covering` (and `collapseLoop_total_words`): the token list
+with the zero-width `ParagraphBreak` at 6 after the tokens that end at 10 (not sorted as a whole) -/
+example : ∃ out, collapseIdentifiers (fun w => w == ['s', 'n', 'a', 'k', 'e', '_', 'c', 'a', 's', 'e'])
+    ['s', 'n', 'a', 'k', 'e', '_', 'c', 'a', 's', 'e', ' ', 'i', 's']
+    [⟨⟨0, 5⟩, .word⟩, ⟨⟨5, 6⟩, .punct .Underscore⟩, ⟨⟨6, 10⟩, .word⟩, ⟨⟨6, 6⟩, .paragraphBreak⟩, ⟨⟨11, 13⟩, .word⟩] =
+      .ok out :=
+  collapseIdentifiers_total_covering _ _ _ (by decide) (by decide) (by decide)
+
 /-! ## `IsolateEnglish` -/
 
 /-- THE KEPT TOKENS ARE THE INNER PARSER'S TOKENS, UNTOUCHED AND IN ORDER: whatever the verdicts -/
@@ -363,5 +662,77 @@ example : isLikelyEnglish (fun w => w != ['z', 'x', 'q']) ['a', ' ', 'z', 'x', '
 example : isLikelyEnglish (fun _ => true) ['a', ' ', 'z', 'x', 'q', ' ', 'b', '.']
     [⟨⟨0, 1⟩, .word⟩, ⟨⟨1, 2⟩, .space 1⟩, ⟨⟨2, 5⟩, .word⟩, ⟨⟨5, 6⟩, .space 1⟩, ⟨⟨6, 7⟩, .word⟩,
      ⟨⟨7, 8⟩, .punct .Period⟩] = .ok true := by decide
+
+/-- the counting loop of `is_likely_english` returns when every WORD token is a well-formed span
+inside the text (`get_content` is its only panicking operation, and it is applied to words only) -/
+theorem countToks_total (dict : List Char → Bool) (src : List Char) :
+    ∀ (toks : List Tok) (c : LangCounts),
+      (∀ t ∈ toks, t.kind.isWord = true → t.span.start ≤ t.span.stop ∧ t.span.stop ≤ src.length) →
+      ∃ c', countToks dict src c toks = .ok c' := by
+  intro toks
+  induction toks with
+  | nil => intro c _; exact ⟨c, rfl⟩
+  | cons t ts ih =>
+    intro c h
+    have hts := fun u hu => h u (List.mem_cons_of_mem _ hu)
+    have ht := h t List.mem_cons_self
+    simp only [countToks, bind, Except.bind]
+    have : ∃ c1, countTok dict src c t = .ok c1 := by
+      unfold countTok
+      cases hk : t.kind <;> simp only [pure, Except.pure] <;> try exact ⟨_, rfl⟩
+      obtain ⟨w, hw⟩ := getContent_ok_of_inb t.span src (ht (by simp [hk, Kind.isWord]))
+      simp only [hw, bind, Except.bind]
+      exact ⟨_, rfl⟩
+    obtain ⟨c1, hc1⟩ := this
+    rw [hc1]
+    exact ih c1 hts
+
+/-- NO PANIC (C01, `language_detection::is_likely_english`), for every dictionary -/
+theorem isLikelyEnglish_total (dict : List Char → Bool) (src : List Char) (toks : List Tok)
+    (hwf : ∀ t ∈ toks, t.kind.isWord = true → t.span.start ≤ t.span.stop ∧ t.span.stop ≤ src.length) :
+    ∃ b, isLikelyEnglish dict src toks = .ok b := by
+  obtain ⟨c, hc⟩ := countToks_total dict src toks ⟨0, 0, 0, 0⟩ hwf
+  exact ⟨verdictOf c, by simp only [isLikelyEnglish, hc, bind, Except.bind, pure, Except.pure]⟩
+
+/-- NO PANIC (C01, `IsolateEnglish` with the modelled verdict — what the driver's op `isolate` runs):
+whatever the order of the inner parser's tokens, as long as its word tokens lie inside the text;
+and the result is a sub-list of the inner parser's tokens -/
+theorem isolateEnglishDict_total (dict : List Char → Bool) (src : List Char) (toks : List Tok)
+    (hwf : ∀ t ∈ toks, t.kind.isWord = true → t.span.start ≤ t.span.stop ∧ t.span.stop ≤ src.length) :
+    ∃ out, isolateEnglishDict dict src toks = .ok out ∧ out.Sublist toks := by
+  have hfl := iterChunks_flatten toks
+  have hgo : ∀ (chunks : List (List Tok)),
+      (∀ ch ∈ chunks, ∀ t ∈ ch, t.kind.isWord = true →
+        t.span.start ≤ t.span.stop ∧ t.span.stop ≤ src.length) →
+      ∃ out, isolateGo (isLikelyEnglish dict src) chunks = .ok out := by
+    intro chunks
+    induction chunks with
+    | nil => intro _; exact ⟨[], rfl⟩
+    | cons ch rest ih =>
+      intro h
+      obtain ⟨r, hr⟩ := ih (fun c hc => h c (List.mem_cons_of_mem _ hc))
+      obtain ⟨b, hb⟩ := isLikelyEnglish_total dict src ch (h ch List.mem_cons_self)
+      simp only [isolateGo, bind, Except.bind, hr, hb]
+      split <;> exact ⟨_, rfl⟩
+  obtain ⟨out, ho⟩ := hgo (Chunks.iterChunks toks) (by
+    intro ch hch t ht
+    exact hwf t (by rw [← hfl]; exact List.mem_flatten.mpr ⟨ch, hch, ht⟩))
+  exact ⟨out, ho, isolateEnglish_sublist _ toks out ho⟩
+
+/-- non-vacuity of `isolateEnglishDict_total` / `isLikelyEnglish_total` / `countToks_total`: the six
+tokens of `a zxq b.` (one chunk of six tokens, so the verdict IS computed), and what comes out -/
+example : ∃ out, isolateEnglishDict (fun w => w != ['z', 'x', 'q']) ['a', ' ', 'z', 'x', 'q', ' ', 'b', '.']
+    [⟨⟨0, 1⟩, .word⟩, ⟨⟨1, 2⟩, .space 1⟩, ⟨⟨2, 5⟩, .word⟩, ⟨⟨5, 6⟩, .space 1⟩, ⟨⟨6, 7⟩, .word⟩,
+     ⟨⟨7, 8⟩, .punct .Period⟩] = .ok out ∧
+    out.Sublist [⟨⟨0, 1⟩, .word⟩, ⟨⟨1, 2⟩, .space 1⟩, ⟨⟨2, 5⟩, .word⟩, ⟨⟨5, 6⟩, .space 1⟩, ⟨⟨6, 7⟩, .word⟩,
+     ⟨⟨7, 8⟩, .punct .Period⟩] :=
+  isolateEnglishDict_total _ _ _ (by decide)
+
+example : isolateEnglishDict (fun w => w != ['z', 'x', 'q']) ['a', ' ', 'z', 'x', 'q', ' ', 'b', '.']
+    [⟨⟨0, 1⟩, .word⟩, ⟨⟨1, 2⟩, .space 1⟩, ⟨⟨2, 5⟩, .word⟩, ⟨⟨5, 6⟩, .space 1⟩, ⟨⟨6, 7⟩, .word⟩,
+     ⟨⟨7, 8⟩, .punct .Period⟩] = .ok [] := by decide
+
+/-- the panic the premise excludes: a word token that reaches past the end of the text -/
+example : isLikelyEnglish (fun _ => true) ['a'] [⟨⟨0, 2⟩, .word⟩] = .error .sliceOOB := by decide
 
 end Harper.C02
